@@ -1074,7 +1074,12 @@ class TTFont(object):
             self.glyphOrder = cff.getGlyphOrder()
         elif "post" in self:
             # TrueType font
-            glyphOrder = self["post"].getGlyphOrder()
+            post = self["post"]
+            # A 'post' table that could not be decompiled (kept as raw data with
+            # ignoreDecompileErrors=True) has no glyph names to offer.
+            glyphOrder = (
+                post.getGlyphOrder() if hasattr(post, "getGlyphOrder") else None
+            )
             if glyphOrder is None:
                 #
                 # No names found in the 'post' table.
